@@ -23,6 +23,10 @@ fixed(["C12", "C07"], "later-valid-request-unanswered:*:number-overflow-1e999|nu
       "a client could store inf/nan in a number element (1e999, or 'nan' sent as text); every later definition/update of the vector then raised, closing the connection of whoever asked")
 fixed(["C11", "C12"], "valid-message-not-recovered-after-junk (messages enclosed by an invalid element)", "fix: giving up an invalid element must not discard",
       "first version of the framer fix dropped a complete-but-invalid element whole, including valid messages it enclosed")
+fixed(["C01"], "library-client:raced-across-control-and-blob-connection", "fix: client ignores non-BLOB messages that arrive on its BLOB",
+      "until enableBLOB Only takes effect the BLOB connection also receives every non-BLOB message; a late copy overwrote newer state from the control connection (found by the quick seed sweep, VERIF_SEED=6)")
+fixed(["C12"], "later-valid-request-unanswered:*:number-huge-finite-to-sexagesimal-format", "fix: rendering a huge number in a sexagesimal format",
+      "a client could store 1e308 in a sexagesimal-format number; num_to_str then raised OverflowError on every definition/update of that vector")
 known("C08", "payload-longer-than-threshold-on-threshold-enabled-link",
       "a BLOB message longer than the 2048-character junk threshold is discarded as junk by a framing buffer whose threshold is enabled "
       "(every client->driver upload on the server side; driver->client on a connection that asked for enableBLOB Also without for_blobs) "
